@@ -238,6 +238,23 @@ theorem failed_write_moves_nothing (w : World) (i : Nat) (d : List Nat) (j : Nat
         unfold View.address at *
         omega
 
+/-- **A failed free frees nothing**: when the controller's `sdram_free` raises, the world is
+exactly what it was (the allocation is not marked freed, every view stays usable, `free()` can be
+called again); the call raised the controller's error or never reached the controller. -/
+theorem failed_free_moves_nothing (w : World) (i : Nat) :
+    (step w (.freeFail i)).1 = w ∧
+    ((step w (.freeFail i)).2.ret = .err .transferError ∨ step w (.freeFail i) = step w (.free i)) := by
+  unfold step
+  simp only [Op.target]
+  split
+  · exact ⟨rfl, Or.inr rfl⟩
+  · simp only [stepView, doFreeFail, doFree, fail]
+    split
+    · exact ⟨rfl, Or.inr rfl⟩
+    · split
+      · exact ⟨rfl, Or.inr rfl⟩
+      · exact ⟨rfl, Or.inl rfl⟩
+
 /-- a read that advanced the position before the transfer would break this: the failed
 `read(4)` at position 4 of a 24-byte view leaves the position at 8 although nothing was
 transferred; the code (and the file specification) leave it at 4 -/
@@ -256,6 +273,25 @@ theorem read_back (m : Mem) (a : Int) (d : List Nat) :
     readMem (writeMem m a d) a d.length = d ∧
     ∀ x, x < a ∨ a + (d.length : Int) ≤ x → writeMem m a d x = m x :=
   ⟨read_after_write m a d, fun x h => writeMem_outside m a d x h⟩
+
+/-- the oracle's linear cut of the observed window is the file of the view (`absFile`) whenever the
+view's range lies inside the window -/
+theorem absFileWin_eq (base : Int) (before : List Nat) (v : View)
+    (h : base ≤ v.start ∧ v.start ≤ v.stop ∧ v.stop ≤ base + (before.length : Int)) :
+    absFileWin base before v = absFile (winMem base before) v := by
+  unfold absFileWin absFile
+  congr 1
+  apply List.ext_getElem?
+  intro i
+  rw [readMem_getElem?, List.getElem?_take, List.getElem?_drop]
+  unfold View.len at *
+  by_cases hi : i < (v.stop - v.start).toNat
+  · simp only [hi, if_true]
+    have hlt : (v.start - base).toNat + i < before.length := by omega
+    have hb : base ≤ v.start + (i : Int) := by omega
+    have he : (v.start + (i : Int) - base).toNat = (v.start - base).toNat + i := by omega
+    simp only [winMem, hb, if_true, he, List.getD, List.getElem?_eq_getElem hlt, Option.getD_some]
+  · simp only [hi, if_false]
 
 /-! ## Closed views and freed allocations -/
 
